@@ -47,7 +47,7 @@ def l_variants(acc, depth, rich):
         out += [("i", "y"), ("x", "i")]
         if rich:
             # ("i", "ix"): one field is the producer of the other field's value (shared input op at uneven depth)
-            out += [("ix", "y"), ("i", "i"), ("y", "ix"), ("i", "ix"), ("ix", "i"), ("il", "y"), ("x", "il")]
+            out += [("ix", "y"), ("i", "i"), ("y", "ix"), ("i", "ix"), ("ix", "i"), ("il", "y"), ("x", "il"), ("ik", "y")]
     if depth >= 2 and rich:
         out += [("o", "i"), ("o", "y")]
     return out
@@ -275,6 +275,8 @@ class Emitter:
             return ivs[-1]["ix"]
         if a == "il":
             return ivs[-1]["il"]
+        if a == "ik":
+            return ivs[-1]["ik"]
         if a == "o":
             return ivs[-2]["i"]
         raise ValueError(a)
@@ -332,7 +334,13 @@ class Emitter:
                     ild, il = self.fresh("ild"), self.fresh("il")
                     out.append(f"{ind}  {ild} = arith.subi {iv}, {lbname} : index")
                     out.append(f"{ind}  {il} = arith.index_cast {ild} : index to {self.ft}")
-                self._seq(s[1], out, ind + "  ", ivs + [dict(i=ic, ix=ix, iv=iv, il=il)])
+                ik = None
+                if "'ik'" in repr(s[1]):
+                    # i * k with the constant k defined inside the loop body (a tile size next to its use)
+                    kc, ik = self.fresh("kc"), self.fresh("ik")
+                    out.append(f"{ind}  {kc} = arith.constant 3 : {self.ft}")
+                    out.append(f"{ind}  {ik} = arith.muli {ic}, {kc} : {self.ft}")
+                self._seq(s[1], out, ind + "  ", ivs + [dict(i=ic, ix=ix, iv=iv, il=il, ik=ik)])
                 out.append(f"{ind}}}")
             elif k in ("IF", "IFP"):
                 if k == "IF":
